@@ -50,6 +50,8 @@ def ka_histories(rng, n):
                 lifespan = rng.choice([None, 1, 2, 3])
             if lifespan:
                 op['worker_lifespan'] = lifespan
+            if pool['start_method'] == 'fork' and rng.random() < .3:
+                op['worker_exit_timeout'] = 60.0        # a timeout that never fires must not change what the exit function returns
             ops.append(op)
         ops.append({'op': 'stop_and_join', 'want_exit_results': True})
         scs.append({'seed': rng.randint(0, 10 ** 6), 'pool': pool, 'ops': ops, 'same_func': rng.random() < .3, 'relax_shape': True})
@@ -96,6 +98,9 @@ def run(chk):
                 op['init'] = True
             if rng.random() < .7:
                 op['exit'] = True
+                if sc['pool']['start_method'] == 'fork' and rng.random() < .3:
+                    op['worker_exit_timeout'] = 60.0
+        sc['all_valid'] = False
         sc['pool'].pop('keep_alive', None)
         scs.append(sc)
     run_scenarios(chk, 'whole calls under DetSim (per-instance init/task/exit shape, exit results)', scs, {'C11'},
